@@ -196,7 +196,7 @@ fn edit(m: &ModelM, rng: &mut StdRng, counter: &mut u32) -> (ModelM, String) {
     let ni = rng.gen_range(0..n.ns.len());
     let ei = rng.gen_range(0..n.ns[ni].entities.len().max(1));
     let has_entity = !n.ns[ni].entities.is_empty();
-    let what = rng.gen_range(0..20);
+    let what = rng.gen_range(0..21);
     let desc: String = match what {
         0 => {
             n.ns.push(NsM { name: format!("nx{}", c), entities: vec![EntityM { name: format!("N{}", c), fields: vec![FieldM { name: "f0".into(), ty: Ty::Str, nullable: false, default: None, deprecated: false }], indexes: vec![], no_fts: false }] });
@@ -319,6 +319,14 @@ fn edit(m: &ModelM, rng: &mut StdRng, counter: &mut u32) -> (ModelM, String) {
             } else {
                 "noop".into()
             }
+        }
+        20 => {
+            // passes every check of the model parser and fails when it is stored: two entities whose names differ by
+            // case only, both with an index on f0 (the storage engine's index names are case-insensitive)
+            for name in [format!("Zc{}", c), format!("zc{}", c)] {
+                n.ns[ni].entities.push(EntityM { name, fields: vec![FieldM { name: "f0".into(), ty: Ty::Str, nullable: false, default: None, deprecated: false }], indexes: vec!["f0".into()], no_fts: false });
+            }
+            "STORAGE-two-entities-differing-by-case-with-the-same-index".into()
         }
         _ => "noop".into(),
     };
